@@ -32,9 +32,12 @@ static uint32_t gen_flags(vrng *r, int kind)
 	return f;
 }
 
+static vbuf g_orig;   // the input before mutation (for handle-reuse warm-up)
+
 static void pick_input(vrng *r, gstream *g, size_t max_plain, unsigned mutate_pct, char *mdesc, size_t mdescsz)
 {
 	mdesc[0] = 0;
+	vbuf_clear(&g_orig);
 	unsigned k = vrng_below(r, 100);
 	if (no_encode) {
 		// (MSan builds: the encoders read uninitialised match-finder memory by
@@ -43,6 +46,7 @@ static void pick_input(vrng *r, gstream *g, size_t max_plain, unsigned mutate_pc
 	} else if (k < 35 && ncorpus) {
 		if (!gen_corpus(r, g, corpus, ncorpus)) gen_stream(r, g, -1, max_plain);
 	} else gen_stream(r, g, -1, max_plain);
+	vbuf_append(&g_orig, g->data.p, g->data.n);
 	if (vrng_below(r, 100) < mutate_pct) {
 		mutate(r, &g->data, mdesc, mdescsz);
 		g->mutated = true; g->plain_known = false;
@@ -88,6 +92,7 @@ static void c06_case(uint64_t idx)
 	spec.flags = gen_flags(&r, kind) & ~(uint32_t)LZMA_FAIL_FAST;
 	if (kind == D_STREAM_MT) { spec.threads = 1 + vrng_below(&r, 4); spec.timeout = vrng_chance(&r, 1, 3) ? 1 + vrng_below(&r, 3) : 0; }
 	lzma_action fin = vrng_chance(&r, 4, 5) ? LZMA_FINISH : LZMA_RUN;
+	if (vrng_chance(&r, 1, 6) && kind != D_BLOCK && kind != D_INDEX && g_orig.n > 0 && g_orig.n < 100000) { spec.warm_in = g_orig.p; spec.warm_n = g_orig.n; hx_count("reused_handle_cases", 1); }
 	slice_plan canon = { .mode = SL_WHOLE, .final_action = fin };
 	dec_result c; uint64_t sv0 = simple_visits();
 	dec_run(&spec, NULL, g.data.p, g.data.n, &canon, &c);
@@ -190,6 +195,10 @@ static void c04_case(uint64_t idx)
 	if (g.data.n > 300000 && (p.mode == SL_ONEBYTE || p.mode == SL_ONEIN || p.mode == SL_ONEOUT)) p.mode = SL_RANDOM;
 	p.final_action = vrng_chance(&r, 3, 4) ? LZMA_FINISH : LZMA_RUN;
 	if (vrng_chance(&r, 1, 10)) p.out_limit = 1 + vrng_logsize(&r, 5000);
+	// a fifth of the cases run on a handle that has already decoded the unmutated input with the same
+	// decoder and was re-initialised without lzma_end()
+	bool reused = vrng_chance(&r, 1, 5) && kind != D_FILE_INFO && kind != D_INDEX && kind != D_BLOCK && g_orig.n > 0 && g_orig.n < 200000;
+	if (reused) { spec.warm_in = g_orig.p; spec.warm_n = g_orig.n; hx_count("reused_handle_cases", 1); }
 	alloc_mon mon; alloc_mon_init(&mon);
 	mon.huge_limit = 300u << 20;
 	hx_sample("c04 %s%s%s dec=%s flags=0x%x memlimit=%" PRIu64 " slicing=%s/%zu/%zu fin=%d outlimit=%zu", g.desc, mdesc[0] ? " MUT:" : "", mdesc,
